@@ -28,6 +28,18 @@ REACTIONS = {
                                 allowed_intermediate_particles=["Sigma(1750)"], allowed_interaction_types=["strong"]),
     "jpsi_k0_sigma_pbar_N": dict(initial_state=("J/psi(1S)", [+1]), final_state=["K0", "Sigma+", "p~"],
                                  allowed_intermediate_particles=["Sigma(1750)", "N(1700)+"], allowed_interaction_types=["strong"]),
+    # higher spin, spin-0 parent with several topologies, four-body two-resonance and cascade topologies (identical pions)
+    "jpsi_gamma_pi0_pi0_f2": dict(initial_state=("J/psi(1S)", [-1, +1]), final_state=["gamma", "pi0", "pi0"], allowed_intermediate_particles=["f(2)(1270)"],
+                                  allowed_interaction_types=["strong", "EM"]),
+    "d0_k_pi_pi0": dict(initial_state="D0", final_state=["K-", "pi+", "pi0"], allowed_intermediate_particles=["K*(892)", "rho(770)+"],
+                        allowed_interaction_types=["weak", "strong"]),
+    "jpsi_kk_pipi": dict(initial_state=("J/psi(1S)", [-1, +1]), final_state=["K+", "K-", "pi+", "pi-"], allowed_intermediate_particles=["phi(1020)", "f(0)(980)"],
+                         allowed_interaction_types=["strong"]),
+    "d0_k_3pi_cascade": dict(initial_state="D0", final_state=["K-", "pi+", "pi+", "pi-"], allowed_intermediate_particles=["a(1)(1260)+", "rho(770)0"],
+                             allowed_interaction_types=["weak", "strong"]),
+    # partial helicity sets of initial AND final states
+    "jpsi_k0_sigma_pbar_partial": dict(initial_state=("J/psi(1S)", [-1, +1]), final_state=["K0", "Sigma+", ("p~", [+0.5])],
+                                       allowed_intermediate_particles=["Sigma(1660)", "N(1650)"], allowed_interaction_types=["strong"]),
     # single-topology reactions with complete helicity sets (C05)
     "jpsi_full_sigmabar_sigma": dict(initial_state=("J/psi(1S)", [-1, 0, +1]), final_state=["K0", "Sigma+", "p~"],
                                      allowed_intermediate_particles=["Sigma(1750)"], allowed_interaction_types=["strong"]),
